@@ -907,7 +907,15 @@ def generate(unit, template_path, canary=False, extra_fns=()):
                 if spec.get("block"):
                     # block-level extraction: the `{...}` block that follows the (unique) match of the regex inside the
                     # function - e.g. the body of `if !inputs.is_empty()` - wrapped in a synthesized signature
+                    kth_ = None
+                    mk_ = re.search(r"#(\d+)$", arm_rx)
+                    if mk_:
+                        arm_rx, kth_ = arm_rx[:mk_.start()], int(mk_.group(1))      # `regex#k`: the k-th match
                     bh = list(re.finditer(arm_rx, fmask))
+                    if kth_ is not None:
+                        if kth_ >= len(bh):
+                            raise AnchorLost(f"{spec['file']}::{spec['name']}: block anchor `{arm_rx}` matched {len(bh)}x (wanted #{kth_})")
+                        bh = [bh[kth_]]
                     if len(bh) != 1:
                         raise AnchorLost(f"{spec['file']}::{spec['name']}: block anchor `{arm_rx}` matched {len(bh)}x")
                     b0 = fmask.find("{", bh[0].end())
